@@ -1159,7 +1159,7 @@ func (rc *RegClient) imageExportDescriptor(ctx context.Context, r ref.Ref, desc 
 		return nil
 	}
 	switch desc.MediaType {
-	case mediatype.Docker1Manifest, mediatype.Docker1ManifestSigned, mediatype.Docker2Manifest, mediatype.OCI1Manifest:
+	case mediatype.Docker1Manifest, mediatype.Docker1ManifestSigned, mediatype.Docker2Manifest, mediatype.OCI1Manifest, mediatype.OCI1Artifact:
 		// Handle single platform manifests
 		// retrieve manifest
 		m, err := rc.ManifestGet(ctx, r, WithManifestDesc(desc))
